@@ -24,7 +24,9 @@ RULE = (
 INIT_LOG = []
 CLASS_NAMES = ["FlatA", "FlatB", "Top", "Mid", "Leaf", "Derived", "SVert", "EmptyReg", "NoBool"]
 ARGS = [(), (1,), (2, 3), ("x",), (None,), ([1, 2],), (0,), (False,)]
-KWARGS = [{}, {"a": 1}, {"b": [1]}, {"a": None, "b": 2}]
+KWARGS = [{}, {"a": 1}, {"b": [1]}, {"a": None, "b": 2},
+          # keyword names an implementation might use for its own parameters
+          {"key": "x"}, {"instances": 1, "factory": 2}, {"args": 1, "kwargs": 2}, {"name": "n", "obj": 0}]
 
 
 def make_classes():
@@ -285,8 +287,26 @@ def judge(ctx, ops, keep_refs=True):
         ctx.violation(mech, f2[0][1] + f"; history: {small}", {"ops": small, "keep_refs": keep_refs})
 
 
+def probe_keyword_named_cls(ctx):
+    """`S(cls=...)`: 'whatever arguments are passed' includes a keyword argument that happens to be called cls."""
+    classes = make_classes()
+    for cname in ("FlatA", "Leaf", "Derived"):
+        r1 = oracles.outcome(classes[cname], cls="x")
+        r2 = oracles.outcome(classes[cname], 2, cls="y")
+        ctx.evaluated()
+        ctx.count("keyword_named_cls_probes")
+        if r1[0] != "ok" or r2[0] != "ok" or r1[1] is not r2[1]:
+            ctx.violation("construct:keyword_named_cls_rejected",
+                          f"{cname}(cls='x') -> {r1[1].__name__ if r1[0] != 'ok' else 'ok'}: TrueSingleton.__call__(cls, *args, "
+                          f"**kwargs) cannot be given a keyword argument named cls", {"probe": "keyword_named_cls"})
+            break
+    singleton.clear_true_singleton()
+
+
 def run(ctx):
     rng = random.Random(ctx.seed * 2750159 + ctx.shard * 13 + 18)
+    if ctx.shard == 0:
+        probe_keyword_named_cls(ctx)
     quick = ctx.tier == "quick"
     for n, ops in enumerate(prelude()):
         if n % ctx.nshards == ctx.shard:
@@ -303,6 +323,11 @@ def run(ctx):
 
 
 def replay(ctx, case):
+    if case.get("probe") == "keyword_named_cls":
+        probe_keyword_named_cls(ctx)
+        ctx.nontrivial("replay-a")
+        ctx.nontrivial("replay-b")
+        return
     judge(ctx, case["ops"], case.get("keep_refs", True))
     ctx.nontrivial("replay-a")
     ctx.nontrivial("replay-b")
